@@ -70,16 +70,18 @@ rpc_leaf!(RpcB, "b");
 
 /// A layer that appends its tag to the request's `tags` header.
 #[derive(Clone)]
-struct TagLayer(u32);
+struct TagLayer(u32, Arc<AtomicU64>);
 #[derive(Clone)]
 struct Tagged<S> {
     inner: S,
     tag: u32,
+    /// how many times any route layer ran (shared by all layers of a table)
+    ran: Arc<AtomicU64>,
 }
 impl<S> tower::Layer<S> for TagLayer {
     type Service = Tagged<S>;
     fn layer(&self, inner: S) -> Tagged<S> {
-        Tagged { inner, tag: self.0 }
+        Tagged { inner, tag: self.0, ran: self.1.clone() }
     }
 }
 impl<S: Service<Request<Bytes>, Response = Response<Bytes>, Error = Infallible>> Service<Request<Bytes>> for Tagged<S> {
@@ -90,6 +92,7 @@ impl<S: Service<Request<Bytes>, Response = Response<Bytes>, Error = Infallible>>
         self.inner.poll_ready(cx)
     }
     fn call(&mut self, mut req: Request<Bytes>) -> Self::Future {
+        self.ran.fetch_add(1, Ordering::SeqCst);
         let mut t = req.headers().get("tags").cloned().unwrap_or_default();
         t.push_str(&format!("{},", self.tag));
         req.headers_mut().insert("tags".into(), t);
@@ -147,6 +150,7 @@ struct Builder {
     next_svc: u32,
     next_tag: u32,
     calls: Calls,
+    layer_runs: Arc<AtomicU64>,
 }
 
 impl Builder {
@@ -164,7 +168,7 @@ impl Builder {
                 Op::Layer => {
                     let tag = self.next_tag;
                     self.next_tag += 1;
-                    r = r.route_layer(TagLayer(tag));
+                    r = r.route_layer(TagLayer(tag, self.layer_runs.clone()));
                     for e in t.iter_mut() {
                         e.2.push(tag);
                     }
@@ -237,7 +241,8 @@ fn requests(max_len: usize, table: &RefTable) -> Vec<String> {
 fn run_program(prog: &[Op], max_len: usize, out: &mut UnitResult, unit: &Value) {
     crate::pool::crumb(|| format!("routing program {:?}", prog.iter().map(op_json).collect::<Vec<_>>()));
     let calls: Calls = Arc::new(Mutex::new(BTreeMap::new()));
-    let mut b = Builder { next_svc: 0, next_tag: 100, calls: calls.clone() };
+    let layer_runs = Arc::new(AtomicU64::new(0));
+    let mut b = Builder { next_svc: 0, next_tag: 100, calls: calls.clone(), layer_runs: layer_runs.clone() };
     let built = std::panic::catch_unwind(std::panic::AssertUnwindSafe(|| b.build(prog)));
     out.states += 1;
     out.transitions += prog.len() as u64;
@@ -257,6 +262,7 @@ fn run_program(prog: &[Op], max_len: usize, out: &mut UnitResult, unit: &Value) 
         out.evaluations += 1;
         let expect = ref_match(&table, &route);
         let before: u64 = calls.lock().unwrap().values().sum();
+        let layers_before = layer_runs.load(Ordering::SeqCst);
         let r = std::panic::catch_unwind(std::panic::AssertUnwindSafe(|| router.call(Request::new(Bytes::new()).with_route(route.clone())).now_or_never()));
         let after_map = calls.lock().unwrap().clone();
         let after: u64 = after_map.values().sum();
@@ -274,6 +280,15 @@ fn run_program(prog: &[Op], max_len: usize, out: &mut UnitResult, unit: &Value) 
             Ok(Some(Err(e))) => match e {},
         };
         let invoked = after - before;
+        let layers_ran = layer_runs.load(Ordering::SeqCst) - layers_before;
+        if expect.is_empty() && layers_ran != 0 {
+            out.violation("route-layer-on-unmatched-route", format!("route {route:?} matches no pattern but {layers_ran} route layer(s) ran for it"), replay.clone());
+        }
+        if let Some(e) = expect.first() {
+            if expect.len() == 1 && layers_ran != e.2.len() as u64 {
+                out.violation("wrong-route-layers", format!("route {route:?} (pattern {:?}): {layers_ran} route layers ran, {} were applied after its registration", e.0, e.2.len()), replay.clone());
+            }
+        }
         if expect.is_empty() {
             if resp.status() != StatusCode::NotFound || invoked != 0 {
                 out.violation("unmatched-route-served", format!("route {route:?} matches no pattern of the table {:?} but got status {:?} with {invoked} service invocation(s) (svc {:?})", table.iter().map(|e| &e.0).collect::<Vec<_>>(), resp.status(), resp.headers().get("svc")), replay);
@@ -368,7 +383,6 @@ impl Check for C16 {
         if !total.classes.keys().any(|k| k.contains("layered=1") || k.contains("layered=2")) {
             total.machinery_errors.push("vacuous: no table with layered routes".into());
         }
-        let _ = AtomicU64::new(0).load(Ordering::Relaxed);
         Map::new()
     }
 }
